@@ -627,8 +627,20 @@ class Array(metaclass=MetaArray):
             ll = len(value)
             shape = get_shape_from_array(value, len(self._shape))
             fits = tuple(shape) == tuple(self._shape)
-        if fits:
+        if fits and (self._is_static_type or is_integer(value)):
             self.__class__._to_buffer(self._buffer, self._offset, value)
+        elif fits:
+            # every item keeps the space it got at creation: update in place
+            info = self.__class__._inspect_args(value)
+            for idx in self._iter_index():
+                room = Int64._from_buffer(self._buffer, self._get_offset(idx))
+                if info.extra[idx].size > room:
+                    raise ValueError(
+                        f"item {idx} of {value} does not fit in the {room} "
+                        "bytes reserved when the array was created"
+                    )
+            for idx in self._iter_index():
+                self[idx] = get_item(value, idx)
         else:
             if is_integer(value):
                 raise ValueError(f"Cannot specify new length {ll} for {self}")
